@@ -110,6 +110,39 @@ pub fn run(a: &Args) -> Report {
         }
     }
 
+    if cfg.first_case == 0 && (prop == "C06" || prop == "C07") {
+        // the most compact encodings there are: k minimal elements of each kind as the very last thing in the input
+        use scale_info::{Field, Path, PortableType, Type, TypeDefComposite, TypeDefTuple, TypeDefVariant, TypeParameter, Variant};
+        let nop = || Path::from_segments_unchecked(Vec::<String>::new());
+        for k in 0..7usize {
+            let defs: Vec<(&str, Type<scale_info::form::PortableForm>)> = vec![
+                ("unit-variants", Type::new(nop(), vec![], TypeDefVariant::new((0..k).map(|j| Variant::new(String::new(), vec![], j as u8, vec![]))), vec![])),
+                ("bare-fields", Type::new(nop(), vec![], TypeDefComposite::new((0..k).map(|_| Field::new(None, 0.into(), None, vec![]))), vec![])),
+                ("tuple", Type::new(nop(), vec![], TypeDefTuple::new_portable((0..k).map(|_| 0.into())), vec![])),
+                ("skipped-params", Type::new(nop(), (0..k).map(|_| TypeParameter::new_portable(String::new(), None)), TypeDefTuple::new_portable(Vec::new()), vec![])),
+                ("empty-docs", Type::new(nop(), vec![], TypeDefTuple::new_portable(Vec::new()), (0..k).map(|_| String::new()).collect())),
+                ("empty-segments", Type::new(Path::from_segments_unchecked((0..k).map(|_| String::new())), vec![], TypeDefTuple::new_portable(Vec::new()), vec![])),
+                ("variant-bare-fields", Type::new(nop(), vec![], TypeDefVariant::new(vec![Variant::new(String::new(), (0..k).map(|_| Field::new(None, 0.into(), None, vec![])).collect(), 0, vec![])]), vec![])),
+            ];
+            for (what, ty) in defs {
+                let r = PortableRegistry { types: vec![PortableType::new(0, ty)] };
+                let ref_bytes = refcodec::encode(&r);
+                rep.eval(Some(hash_bytes(&ref_bytes)));
+                rep.count("minimal_encodings", 1);
+                let case = json!({"fixed_minimal": what, "elements": k, "scale_hex": hex(&ref_bytes)});
+                if r.encode() != ref_bytes {
+                    rep.violation(&format!("{}/minimal-encode", prop), format!("{} x {}: library encoding differs from the layout", what, k), case.clone());
+                }
+                for (inp, res) in [("slice", guard(|| PortableRegistry::decode(&mut &ref_bytes[..]))), ("stream", guard(|| PortableRegistry::decode(&mut scale::IoReader(&ref_bytes[..]))))] {
+                    match res {
+                        Ok(Ok(r2)) if r2 == r => {}
+                        other => rep.violation(&format!("{}/minimal-roundtrip", prop), format!("{} x {} ({} input, {} bytes): {:?}", what, k, inp, ref_bytes.len(), other.map(|x| x.map(|_| "different registry").map_err(|e| e.to_string()))), case.clone()),
+                    }
+                }
+            }
+        }
+    }
+
     let body = run_parallel(&cfg, |i, rep| {
         let (r, mode, mut rng) = gen_case(seed, i, thorough);
         let ref_bytes = refcodec::encode(&r);
